@@ -303,7 +303,7 @@ def _shapes_mgm(tier, prop=None):
           dict(spec="rand5", stop_cycle=4, sample_only=True, sample_factor=4, sample_part=1, nary=True),
           dict(spec="rand5", stop_cycle=3, sample_only=True, sample_factor=4, sample_part=2, algo_params=dict(break_mode="random"), policy="lifo", interleave_start=True),
           dict(spec="rand6", stop_cycle=3, sample_only=True, sample_factor=3, sample_part=3, connected=False, policy="random", sched_seed=2, start_order="rev")]
-    if tier == "thorough":
+    if tier == "thorough" and prop != "C10":
         s += [
             dict(spec="chain3", stop_cycle=2, modes=["max"], algo_params=dict(break_mode="random")),
             dict(spec="pair_cost", stop_cycle=2, algo_params=dict(break_mode="random")),
@@ -380,7 +380,8 @@ def _shapes_mgm2(tier, prop=None):
     q.append(dict(algo="mgm2", spec="double_pair", stop_cycle=2, modes=["min"], offerers=["x1"]))
     q.append(dict(algo="mgm2", spec="overlap", stop_cycle=2, modes=["min"], offerers=[]))
     q.append(dict(algo="mgm2", spec="chain3", stop_cycle=2, modes=["min"], offerers=["x3"], start_order="rev", policy="lifo", interleave_start=True))
-    if tier != "thorough":
+    if tier != "thorough" or prop == "C10":
+        # (C10 - values in the domain - is served by many contracts: its thorough tier keeps the quick list of this one)
         return q
     s = list(q)
 
@@ -391,7 +392,8 @@ def _shapes_mgm2(tier, prop=None):
     # hundreds of thousands of paths and are left out: stated in the assumptions)
     for off in ([], ["x1"], ["x2"], ["x3"], ["x1", "x2"], ["x2", "x3"], ["x1", "x2", "x3"]):
         add(dict(algo="mgm2", spec="chain3", stop_cycle=2, modes=["min"], offerers=off))
-        add(dict(algo="mgm2", spec="chain3", stop_cycle=2, modes=["max"], offerers=off))
+        if off in ([], ["x2"], ["x1", "x2", "x3"]):
+            add(dict(algo="mgm2", spec="chain3", stop_cycle=2, modes=["max"], offerers=off))
     for off in ([], ["x1"], ["x2"], ["x3"]):
         add(dict(algo="mgm2", spec="star_cost", stop_cycle=2, modes=["min"], offerers=off))
         add(dict(algo="mgm2", spec="tri_nary", stop_cycle=2, modes=["max"], offerers=off))
@@ -406,7 +408,7 @@ def _shapes_mgm2(tier, prop=None):
     for i in range(2, 6):
         add(dict(algo="mgm2", spec="chain3", stop_cycle=2, modes=["min"], offerers=["x2"], policy="random", sched_seed=i, interleave_start=bool(i % 2)))
     for roles in ([["x1", "x2"], ["x1"]], [["x2"], ["x2"]]):
-        add(dict(algo="mgm2", spec="chain3", stop_cycle=3, modes=["min"], offerers_by_cycle=roles, search_paths=150000))
+        add(dict(algo="mgm2", spec="chain3", stop_cycle=3, modes=["min"], offerers_by_cycle=roles, search_paths=60000))
     return s
 
 
